@@ -3,7 +3,7 @@ CONSTANTS
   ItemKinds = {"local", "call", "pcall", "assign", "do", "if", "func", "table", "repeat"}
   MaxTop = 2
   MaxDev = 2
-  DevTypes = {"semi", "dir", "cmt"}
+  DevTypes = {"semi", "dir", "cmt", "tail"}
   WithReturn = FALSE
 INVARIANT Emit
 CHECK_DEADLOCK FALSE
